@@ -786,4 +786,36 @@ func c01DecoderLoops(c *Ctx, reach map[*ssa.Function]bool) {
 		}
 	}
 	c.Check(nloops >= 6, "decoder-loop-exits", "decoder-driven loops found", "-", fmt.Sprint(nloops), fmt.Sprintf("expected at least 6 decoder-driven loops (ipp message/group/values, ssh env/exec), found %d", nloops))
+	// the cursor only moves backwards by constants (look-ahead rewinds, bounded by what the iteration just read): a relative
+	// Seek by a value taken from the input must be provably non-negative, or the client can point the cursor back at bytes
+	// already decoded and the loop re-decodes (and appends) for ever without any read failing
+	nSeek := 0
+	for _, fn := range fns {
+		pr := zone.New(fn)
+		for _, call := range Calls(fn) {
+			cc := call.Common()
+			isSeek := false
+			var arg ssa.Value
+			if cc.IsInvoke() && cc.Method.Name() == "Seek" && isDecoderType(cc.Value.Type()) && len(cc.Args) == 1 {
+				isSeek, arg = true, cc.Args[0]
+			} else if f := cc.StaticCallee(); f != nil && f.Name() == "Seek" && len(cc.Args) == 2 && isDecoderType(cc.Args[0].Type()) {
+				isSeek, arg = true, cc.Args[1]
+			}
+			if !isSeek {
+				continue
+			}
+			nSeek++
+			key := fmt.Sprintf("%s: Seek #%d", shortFn(fn), nSeek)
+			if _, isConst := ConstInt(arg); isConst {
+				c.Ok("decoder-seek-forward", key, p.InstrPos(call), "constant offset (bounded rewind or skip)")
+				continue
+			}
+			if ok, why := pr.ProveGE(arg, 0, call); ok {
+				c.Ok("decoder-seek-forward", key, p.InstrPos(call), "offset proved non-negative")
+			} else {
+				c.Violate("decoder-seek-forward", key, p.InstrPos(call), "the decoder cursor is moved by an input-derived amount that may be negative ("+RenderN(arg, 3)+"; "+why+"): a crafted length moves the cursor back onto bytes already decoded, no read ever fails, and the decode loop repeats for ever while its result list grows until the process is out of memory")
+			}
+		}
+	}
+	c.Check(nSeek >= 4, "decoder-seek-forward", "decoder Seek sites found", "-", fmt.Sprint(nSeek), "fewer decoder Seek calls than the IPP look-ahead code is known to have")
 }
